@@ -125,6 +125,53 @@ func (l *lockedBuffer) Take() []byte {
 
 // RunScenario executes one plan inside a fresh synctest bubble and records its
 // trace. It returns the decisions taken (for replay).
+// The state-file sampler (C12): a goroutine OUTSIDE the bubble that keeps reading the state file of the running
+// scenario on the real clock. Each read is an instant at which the process could have been killed; what it returns is
+// what the next start would restore. A sample is recorded only when its content differs from the previous one and no
+// event was written while it was taken.
+type pollInfo struct {
+	path string
+	scn  int
+	rec  *Recorder
+}
+
+var pollTarget atomic.Pointer[pollInfo]
+
+func StartStateFileSampler(stop <-chan struct{}) {
+	go func() {
+		var last string
+		lastScn := -1
+		for {
+			select {
+			case <-stop:
+				return
+			default:
+			}
+			pi := pollTarget.Load()
+			if pi == nil {
+				spinFor(50)
+				continue
+			}
+			seq, scn := pi.rec.SeqNow()
+			if scn != pi.scn {
+				spinFor(20)
+				continue
+			}
+			cfg, ok := fileCfgAt(pi.path)
+			key := fmt.Sprint(ok) + cfg
+			if pollTarget.Load() != pi {
+				continue // the scenario is over: its teardown rewrites the file
+			}
+			if scn != lastScn || key != last {
+				if pi.rec.EmitIfSeq(seq, scn, "file_obs", KV{"c": "", "point": "poll", "ok": ok, "cfg": cfg}) {
+					last, lastScn = key, scn
+				}
+			}
+			spinFor(15)
+		}
+	}()
+}
+
 func RunScenario(t *testing.T, scn int, plan *Plan, rec *Recorder, dir string) (decisions []string, hits, misses int) {
 	synctest.Test(t, func(t *testing.T) {
 		w := &World{t: t, plan: plan, rec: rec, dir: dir}
@@ -176,6 +223,9 @@ func (w *World) setup(scn int) {
 	w.statePath = filepath.Join(w.dir, fmt.Sprintf("state-%d.json", scn))
 	os.Remove(w.statePath)
 	w.router = server.NewRouter(w.statePath)
+	if plan.SnapObs {
+		pollTarget.Store(&pollInfo{path: w.statePath, scn: scn, rec: w.rec})
+	}
 	cfg := &server.Config{Bind: "127.0.0.1", HttpPort: 80, HttpsPort: 443, AlternateConfigDir: w.dir}
 	w.handler = server.VerifBuildHandler(server.NewServer(cfg, w.router))
 
@@ -413,6 +463,7 @@ func (w *World) run(scn int) {
 	if plan.Sched == "guided" {
 		w.rec.Emit("guided", KV{"hits": w.ctl.Hits, "misses": w.ctl.Misses, "missed": nonNil(w.ctl.Missed)})
 	}
+	pollTarget.Store(nil)
 	w.rec.Emit("end", nil)
 	w.teardown()
 }
@@ -734,8 +785,10 @@ func (w *World) memCfg() string {
 }
 
 // fileCfg: what a proxy started now would read from the state file ("" = nothing to restore / undecodable).
-func (w *World) fileCfg() (string, bool) {
-	b, err := os.ReadFile(w.statePath)
+func (w *World) fileCfg() (string, bool) { return fileCfgAt(w.statePath) }
+
+func fileCfgAt(path string) (string, bool) {
+	b, err := os.ReadFile(path)
 	if err != nil {
 		if os.IsNotExist(err) {
 			return "[]", true
